@@ -13,6 +13,14 @@ claimed = {
    text="Deductive proof with a ghost state variable 'an error-level line has been logged' (log lines whose literal format starts with one of colog's error-level headers, including the two that cmd/gosk registers after the repair): TraverseAST logs one for every statement whose mnemonic has no pass-1 handler (for every content of the handler table); ocodeClient.Emit logs one, and appends nothing, whenever a line cannot be turned into an ocode (after the first repair); processDW and processDD hand exactly one value per operand to the emitter or have logged an error (loop invariant over operand lists of any length: no operand is dropped silently; after the second repair, which makes the capitalised 'Error...' lines error-level); GenerateX86 reports every ocode whose code generation returns an error (ghost variable for the callee's failure); main registers those headers.",
    note=TRUST + " PARTIAL: the other pass-1 handlers (instruction operand shapes), undefined jump targets (placeholder entries are never checked), and the link to the exit status are not decided. TraverseAST's mode clause and frame are trusted, its panic sites not analysed. Two fix commits belong to this property.",
    design="DESIGN.md section 4, C07"),
+ "C01": dict(
+   text="Deductive proofs over the real leaf encoders that every instruction handler uses: GetRegisterNumber gives each general, segment and control register name its SDM number and rejects everything else; ModRMByOperand/ModRMByValue build, for register operands, exactly mod=11 | reg<<3 | rm with the two registers in their roles (or the /digit), and for memory operands a ModR/M byte whose reg field is the register operand; calculateModRM's bytes decode to the written effective address (C02 clause, shared); getImmediateValue emits the low size*8 bits of the value little-endian; getImmediateSizeType has the signed thresholds; registerToPushPopCode gives the +r numbers of 16/32-bit registers only; handleINT emits CD ib; handleRET emits C3. The hand-written encoding rows (code, not data) are checked against the instruction set: in MOV forms with a segment or control register the special register is in the reg field and the general register in r/m, with opcodes 8C/8E/0F20/0F22 (a wrong row was found and repaired, fix commit); every IN/OUT row has the SDM opcode for its accumulator/port form and a one-byte port immediate; PUSH/POP r32 are 50+rd / 58+rd. The prefix decisions: Require67h is true exactly when a memory operand is addressed with registers of the other address size (proved without exception); Require66h is true exactly when a register operand or an explicitly sized memory operand has the non-default 16/32-bit size - outside two recorded regions where the tree also lets the magnitude of an immediate and the address registers of an unsized memory operand decide.",
+   note=TRUST + " PARTIAL, and the larger part is open: the per-mnemonic handlers (MOV, ALU, logical, IMUL, IN/OUT, PUSH/POP, no-operand table) that choose the asmdb row, prefixes and immediate width are not under contract, nor is the asmdb table itself (A3); the operand text parser is assumed (A1, A2), 64-bit register names are excluded (A16, recorded finding). Findings recorded: 64-bit names numbered like 32-bit ones; the five C02 regions.",
+   design="DESIGN.md section 4, C01"),
+ "C03": dict(
+   text="Deductive proofs tying the two independent size computations to one specification each: (a) memory operands - pass 1's CalcOffsetByteSize/CalcSibByteSize and the emitter's calculateModRM are both proved, for every operand and both modes, to produce the number of displacement bytes and the SIB presence given by one SDM-derived size function of the operand (so they agree wherever both proofs hold; six input regions where the current tree disagrees are recorded findings); (b) data directives - processDB/DW/DD/RESB/ALIGNB advance LOC by exactly the number of bytes handleDB/DW/DD/RESB/ALIGNB emit for the values handed over (loop invariants, any list length); (c) jumps - estimateJumpSize/getOffsetSize size classes; (d) the origin reaches code generation unchanged (SetDollarPosition, Pass2.Eval) and `$`/label values are read from the table pass 1 filled (ImmExp.Eval, SetSymbolTable); (e) GetOutputSize is the row's byte count (opcode-length finding recorded).",
+   note=TRUST + " PARTIAL: the summation itself (every label = origin + sum of the sizes of the statements before it) happens in pass1.TraverseAST, which is only used through a trusted frame contract; FindMinOutputSize/GetPrefixSize (prefix bytes) and the per-instruction pass-1 handlers are not under contract; the jump size estimate is known to disagree with emission (C04 findings).",
+   design="DESIGN.md section 4, C03"),
  "C08": dict(
    text="Deductive proof over the real COFF writer. CoffFormat.Write (layout arithmetic with loop invariants for any number of symbols): the symbol table starts at 20+3*40+len(code), the header's symbol count is the number of 18-byte records (main + auxiliary, recursive spec) actually appended, the buffer handed to the file is 140+len(code)+18*count+4+len(strings) bytes long, the string-table size field is len(strings)+4, header values (machine 0x14c, 3 sections, no optional header) and section header values (.text size = code size at offset 140, .data/.bss empty, names) are as specified, exactly one write on success. generateSymbolEntries / convertNameToBytes: fixed symbols and their auxiliary records, every record announces exactly the auxiliary records that follow, user symbols are externals of section 0 or 1, entry count, name fields inline or as a string-table offset that points at the name (data-structure invariant over all keys of the de-duplication map).",
    note=TRUST + " PARTIAL: the bytes struc.PackWithOptions produces for a header or symbol record are not modelled (only their number: assumed library contract), so 'the header bytes on disk equal the header values' rests on struc; sort.SliceStable is modelled (permutation + ordered by the comparator). At most 65536 names of at most 4096 bytes (A14), code below 1 GiB (A17).",
